@@ -15,6 +15,10 @@ for d in seeded/*/; do
 	[ "$id" = revert-7695b12 ] && props="C27 C29 C32"
 	[ "$id" = C10-I ] && props="C08" # only breaks a reused Parser
 	[ "$id" = C35-L ] && continue     # outside the property (an I/O error is not a kill); see DESIGN.md
+	[ "$id" = revert-7c9dc4a ] && continue # superseded, see its meta.json
+	[ "$id" = revert-d0ad8d3 ] && continue # superseded, see its meta.json
+	[ "$id" = C31-H ] && continue          # no longer a violation, see its meta.json
+	[ "$id" = revert-734ea4b ] && continue # no longer a violation, see its meta.json
 	for p in $props; do echo "$id $p"; done
 done > "$list"
 xargs -P "$par" -L 1 bash -c 'r=$(/verif/tools/seedpar.sh /verif/seeded/$0 $1 quick 2>&1 | tail -1); echo "$0 $1: $r"' < "$list" | tee /verif/seeded/REGRESS.log.new
